@@ -86,7 +86,7 @@ class LoopRule:
                 % (h, pred, body.where(pred), bool(e0), ["empty", "some"][t0], p2, bool(e2), ["empty", "some", "?"][t2], scanai.mask_str(c2))
             )
         # L3 visited set
-        r = self.visited_set(body, scc)
+        r = self.visited_set(body, scc) or self.worklist(body, scc)
         if r:
             return "L3", r
         return None, "no finite producer on every cycle, does not touch the scanner, no visited set"
@@ -118,6 +118,41 @@ class LoopRule:
                         if leaves and not scanai.sub_sccs(body, scc, [sb]):
                             return "every cycle passes the switch on %s (bb%d); the 'already seen' edge leaves the loop" % (nm.split("::")[-1], sb)
         return None
+
+    def worklist(self, body, scc):
+        """work-list traversal with a visited set: every cycle pops the work list (or is a finite inner iteration) and every
+        push onto it is dominated by the 'newly inserted' edge of HashSet::insert on the visited set; so pushes are bounded
+        by the number of distinct elements and every outer pass removes one entry"""
+        pops, pushes = [], []
+        for b in scc:
+            t = body.term(b)
+            if t["k"] != "call":
+                continue
+            nm = strip_generics(mir.callee_name(t) or "")
+            if nm == "std::vec::Vec::pop":
+                pops.append((b, repr(G.describe(body, t["args"][0]))))
+            elif nm == "std::vec::Vec::push":
+                pushes.append((b, repr(G.describe(body, t["args"][0]))))
+        if not pops:
+            return None
+        w = pops[0][1]
+        if any(x != w for _, x in pops):
+            return None
+        P = self.finite_next_blocks(body, scc)
+        if scanai.sub_sccs(body, scc, [b for b, _ in pops] + P):
+            return None
+        n = 0
+        for b, recv in pushes:
+            if recv != w:
+                continue
+            ok = False
+            for g in G.guards_at(body, b):
+                if g.op == "True" and g.a.kind == "call" and g.a.v in ("std::collections::HashSet::insert", "std::collections::BTreeSet::insert"):
+                    ok = True
+            if not ok:
+                return None
+            n += 1
+        return "work list %s: every cycle pops it or steps a finite iterator; its %d push site(s) are dominated by the 'newly inserted' edge of the visited-set insert" % (w, n)
 
     def _reaches_within(self, body, x, scc, target):
         seen = {x}
